@@ -23,6 +23,7 @@ def keyspecs(rng, n, structured):
     if structured:
         out += [('rnd', rng.data(n)), ('rnd', rng.data(n))]
         out += [('00', '=00:%d' % n), ('ff', '=ff:%d' % n), ('bit', ('01' + '00' * (n - 1))), ('bit', ('00' * (n - 1) + '80'))]
+        out += [('words', rng.word_pattern(n)) for _ in range(3)]
     return out
 
 
